@@ -126,6 +126,89 @@ def bag_cases(BagOfHypotheses):
     return n, bad
 
 
+def _torch_lm_chunk(cases):
+    """the real LMWrapper / HiddenState with a torch LSTM language model (tuple state (h, c), 1 or 2 layers): the LM score the
+    decoder reports for a hypothesis must be the model's own score of the transcript, recomputed here with plain torch"""
+    core.setup_repo_path()
+    import numpy as np
+    import torch
+    torch.set_num_threads(1)
+    from pero_ocr.decoding import decoders as D
+    from pero_ocr.decoding.lm_wrapper import LMWrapper
+    CH = ['a', 'b', 'c']
+    HID = 6
+    out = {'evaluations': 0, 'nontrivial': 0, 'failures': [], 'samples': []}
+
+    class Net(torch.nn.Module):
+        def __init__(self, layers):
+            super().__init__()
+            self.embedding = torch.nn.Embedding(len(CH) + 1, HID)
+            self.lstm = torch.nn.LSTM(HID, HID, num_layers=layers, batch_first=True)
+            self.layers = layers
+
+        def forward(self, xs, hs):
+            return self.lstm(self.embedding(xs), hs)
+
+        def init_hidden(self, bsz):
+            return (torch.zeros((self.layers, bsz, HID)), torch.zeros((self.layers, bsz, HID)))
+
+    class Out(torch.nn.Module):
+        def __init__(self):
+            super().__init__()
+            self.projection = torch.nn.Linear(HID, len(CH) + 1)
+
+        def forward(self, hs):
+            return torch.nn.functional.log_softmax(2.0 * self.projection(hs), dim=-1)
+
+    class Lm(torch.nn.Module):
+        def __init__(self, layers):
+            super().__init__()
+            self.vocab = {'</s>': 0}
+            for c in CH:
+                self.vocab[c] = len(self.vocab)
+            self.model = Net(layers)
+            self.decoder = Out()
+            self._unused_prefix_len = 1
+
+    def own_score(lm, text):
+        with torch.no_grad():
+            h = lm.model.init_hidden(1)
+            _, h = lm.model(torch.tensor([[0]]), h)
+            total = 0.0
+            for ch in text:
+                lp = lm.decoder(h[0][-1])[0]
+                total += float(lp[lm.vocab[ch]])
+                _, h = lm.model(torch.tensor([[lm.vocab[ch]]]), h)
+        return total
+    for seed, layers, k, scale in cases:
+        torch.manual_seed(seed)
+        lm = Lm(layers)
+        rng = np.random.RandomState(seed)
+        # peaked frames cycling through the letters: hypotheses of three and more characters (a state that was extended is
+        # extended again, which is where a half-updated (h, c) pair shows)
+        T = 5 + seed % 3
+        x = rng.uniform(0.05, 0.25, size=(T, len(CH) + 1))
+        for t in range(T):
+            x[t, (seed + t) % len(CH)] = 1.0
+        logits = np.log(x / x.sum(axis=1, keepdims=True))
+        dec = D.CTCPrefixLogRawNumpyDecoder(CH + [D.BLANK_SYMBOL], k=k, lm=LMWrapper(lm, CH, torch.device('cpu')), lm_scale=scale)
+        out['evaluations'] += 1
+        try:
+            boh = dec(logits)
+            hyps = list(boh)
+            if any(len(h.transcript) >= 3 for h in hyps):
+                out['nontrivial'] += 1
+            for h in hyps:
+                want = own_score(lm, h.transcript)
+                if abs(h.lm_sc - want) > 1e-4:
+                    out['failures'].append({'clause': 'lm-score-is-own-score', 'input': {'seed': seed, 'lstm_layers': layers, 'k': k, 'scale': scale},
+                                            'observed': '%r: lm_sc %.6f, the LSTM model itself scores the transcript %.6f' % (h.transcript, h.lm_sc, want)})
+                    break
+        except Exception as e:
+            out['failures'].append({'clause': 'no-exception', 'input': {'seed': seed, 'lstm_layers': layers, 'k': k, 'scale': scale}, 'observed': 'raised %r' % (e,)})
+    return out
+
+
 def run(ctx):
     from pyvc import run as vrun
     thorough = ctx.tier == 'thorough'
@@ -191,6 +274,17 @@ def run(ctx):
                     res['evaluations'], res['nontrivial'], True, res['samples'], fails,
                     rule='every grid point; non-trivial = at least two frames and scale != 1',
                     clause='lm_sc = LM own score; best maximises vis+scale*lm; confidence/state belong to it; scale 0 = LM-free')
+    # the real LMWrapper / HiddenState with a torch LSTM (the toy LM above never touches HiddenState)
+    tcases = [(sd, layers, k, sc) for sd in range(6 if not thorough else 12) for layers in (1, 2) for k in (1, 3) for sc in (0.7,)]
+    res3 = bounded.pmap(_torch_lm_chunk, bounded.shard(tcases, 8))
+    fails3 = []
+    if res3['failures']:
+        f = res3['failures'][0]
+        fails3.append(Failure(sig('rt', 'decoder+LMWrapper', f['clause']), 'decoder with the real LMWrapper and a torch LSTM: %s on %s' % (f['observed'], f['input']),
+                              function='CTCPrefixLogRawNumpyDecoder.__call__ / LMWrapper / HiddenState', input=f['input'], observed=f['observed'], clause=f['clause']))
+    ctx.add_bounded('decoder-with-torch-lstm', '%d decodings: seeded 1- and 2-layer LSTM language models (tuple state) behind the real LMWrapper, 5-7 peaked frames, k in {1, 3}' % len(tcases),
+                    res3['evaluations'], res3['nontrivial'], False, res3['samples'], fails3, rule='seeded models and matrices; non-trivial = a hypothesis of at least three characters',
+                    clause='lm_sc of every hypothesis = the LSTM model\'s own score of the transcript')
     bounded.close()
     ctx.trusted += ['toy LM stands for "all history-dependent LMs" (A6: the real LMWrapper/torch LM is not verified)',
                     'executable specs specs/ctc.py']
